@@ -16,6 +16,8 @@ RULE = ('Hypothesis draws (configuration, recipe, 1-4 recording steps out of %s,
 CFG_NAMES = [c['name'] for c in fsgen.CONFIGS]
 
 def strategy(env):
+    # (the MMP configuration is not drawn: every tool run, e2undo included, rewrites the MMP block outside the io channel, so a byte-exact comparison is meaningless there; one replay
+    #  file covers the only MMP-specific behaviour of the undo manager, the close-without-write before e2fsck's reopen)
     return st.fixed_dictionaries(dict(cfg=st.sampled_from(CFG_NAMES), recipe=st.integers(0, len(hyp.RECIPES) - 1), steps=st.lists(st.tuples(st.integers(0, len(STEPS) - 1), st.integers(0, 999)), min_size=1, max_size=4),
                                       mode=st.integers(0, len(MODES) - 1), seed=st.integers(0, 1 << 30), san=st.booleans()))
 
@@ -138,6 +140,9 @@ def body(case, env):
             if r.rc != 137: classes.append('kill:not-reached'); return (None, fp, False, None, classes)
         elif r.rc in ok_rc and not os.path.exists(undo) and sha_prefix(img, len0) != snaps[-1]:
             return (dict(kind='recording-run-wrote-no-undo-file', cfg=case['cfg'], mode=mode, steps=done + ['%s [%d] -> rc %s' % (name, v, r.rc)], out=r.out[-300:]), fp, True, None, classes)
+        elif 'Undo file corrupt' in r.out and not undos and not shared:
+            # the tool rejects, as corrupt, the undo file it has itself just created (nothing else ever touched that file): no recording is possible at all
+            return (dict(kind='tool-rejects-the-undo-file-it-just-created', cfg=case['cfg'], mode=mode, steps=done + ['%s [%d] -> rc %s' % (name, v, r.rc)], out=r.out[-300:]), fp, True, None, classes)
         elif r.rc not in ok_rc or not os.path.exists(undo):
             classes.append('step-refused')        # the tool refused or failed: not a run that finished normally, nothing recorded that we rely on
             if shared and os.path.exists(undo) and r.rc not in ok_rc: failed_run_on_shared_file = True
@@ -227,6 +232,7 @@ def body(case, env):
         return (None, fp, True, dict(base, e2undo_rc=r.rc), classes)
     if mode == 'flip':
         size = os.path.getsize(undo); rnd = random.Random(case['seed'])
+        if size == 0: classes.append('noop-step-empty-undo-file'); return (None, fp, False, None, classes)      # the step wrote nothing, so nothing was recorded: no bits to flip
         nbits = size * 8
         # header (first 1 KiB), the key area and sampled data bits
         bits = set(rnd.randrange(0, min(nbits, 8192)) for _ in range(24)) | set(rnd.randrange(0, nbits) for _ in range(40))
